@@ -148,12 +148,12 @@ func genC03(g *Gen) {
 	}
 	// (1b) bulk runs across the capacity thresholds of the backing slice
 	for _, comp := range []string{"lt", "gt"} {
-		for _, n := range bulkSizes(g.Thorough()) {
+		for _, pl := range bulkPlans(g.Thorough()) {
 			if !g.Mine() {
 				continue
 			}
-			g.Emit("heap", []string{comp}, bulkOps(func(i int) string { return "push " + itoa((i*37)%101-3) }, "pop",
-				[]string{"size", "peek"}, n))
+			g.Emit("heap", []string{comp}, bulkPlan(func(i int) string { return "push " + itoa((i*37)%101-3) }, "pop",
+				[]string{"size", "peek"}, pl[0], pl[1], pl[2]))
 		}
 	}
 	// (2) FromSlice / Sort on all slices up to length 6 (quick) / 7 (thorough) over 4 values
